@@ -215,3 +215,11 @@ Proof.
     + intros x Hx. specialize (H1 x Hx). lia.
     + intros y Hy. specialize (H2 y Hy). lia.
 Qed.
+
+Lemma brute_checked_exact_lemma : forall d N q k sel,
+  0 <= q < Z.of_nat N -> (k < N)%nat ->
+  nth_ok_b k (brute_dists_fixed d N q) sel = true ->
+  exists l, brute_row_fixed sel k = Some l /\ is_knn d N q k l.
+Proof.
+  intros d N q k sel Hq Hk H. apply brute_exact_lemma; try assumption. now apply nth_ok_b_sound.
+Qed.
